@@ -23,6 +23,7 @@ type Case struct {
 	BufS2C    int            `json:"bufS2C,omitempty"`
 	Salt      uint64         `json:"salt"`
 	Big       bool           `json:"big,omitempty"`
+	Backlog   bool           `json:"backlog,omitempty"` // labelling only: the deep-backlog class
 }
 
 var boundarySizes = []int{0, 1, 2, 3, 4, 5, 6, 7, 8, 9, 15, 16, 17, 20, 24, 28, 35, 1023, 1024, 1025, 4096, 32763, 32764, 32765, 32767, 32768, 32769, 65535, 65536, 65537}
@@ -148,6 +149,22 @@ func genCase(t *rapid.T) Case {
 		p.Down.DelayMs = rapid.SampledFrom([]int{0, 0, 0, 1, 5}).Draw(t, "delayDown")
 		c.Progs = append(c.Progs, p)
 	}
+	// deep backlog: more than 4096 *segments* (the capacity of a session's
+	// receive queue) reach an application that is not reading yet
+	if rapid.IntRange(0, 39).Draw(t, "backlog") == 0 {
+		n := rapid.IntRange(4097, 4700).Draw(t, "backlogWrites")
+		ws := make([]int, n)
+		for i := range ws {
+			ws[i] = 1 + i%2
+		}
+		d := &c.Progs[0].Down
+		if rapid.Bool().Draw(t, "backlogUp") {
+			d = &c.Progs[0].Up
+		}
+		d.Writes, d.ReadLag, d.Reads = ws, rapid.SampledFrom([]int{2500, 5000}).Draw(t, "backlogLag"), nil
+		c.ChunksC2S, c.ChunksS2C, c.BufC2S, c.BufS2C = nil, nil, 0, 0
+		c.Backlog = true
+	}
 	return c
 }
 
@@ -208,6 +225,7 @@ func prop(c Case) (o pbt.Outcome) {
 	o.Label("shared=%v", shared)
 	o.Label("noWait=%v", c.Cfg.NoWait)
 	o.Label("rawClient=%v", c.Cfg.RawClient)
+	o.Label("deepBacklog=%v", c.Backlog)
 	o.Label("smallChunk=%v", smallChunk)
 	o.Label("boundary=%v", boundary)
 	o.Label("leClient=%v", c.Cfg.ClientPattern.LowEntropy())
